@@ -23,6 +23,29 @@ def setting_name(noal, mt):
 # correspondence
 # ---------------------------------------------------------------------------------------------------
 
+def _has_operator(c):
+    """does a canonical expression contain an operator node (inside mods and load bases too)?"""
+    for p in c:
+        if p[0] != "s":
+            continue
+        l = p[1]
+        if l[0] in ("o", "u", "?"):
+            return True
+        if l[0] == "a" and _has_operator(l[1]):
+            return True
+        if l[0] == "l":
+            if _has_operator(l[1]):
+                return True
+            for m in l[5]:
+                if m and m[0] != "reg-mod" and (_has_operator(m[0]) or _has_operator(m[2])):
+                    return True
+    return False
+
+
+ALGEBRA = "algebra-in-pointer"     # a pointer whose base contains an operator: its normal form (extract_offset,
+                                   # operand order, x|0 -> x …) is the algebra's business (C01), not the mapper's
+
+
 def _same_entries(A, B, states, count):
     if len(A) != len(B):
         return "number of items %d vs %d" % (len(A), len(B))
@@ -38,6 +61,8 @@ def _same_entries(A, B, states, count):
             if kp != "equal":
                 count("pointer-" + kp)       # the base mentions values the algebra rewrote (inside mods): compared by value
             if kp == "different" or a[2] != b[2]:
+                if _has_operator(a[1]) or _has_operator(b[1]):
+                    return ALGEBRA
                 return "item %d pointer" % i
             if a[4] != b[4]:
                 return "item %d byte order" % i
@@ -65,11 +90,15 @@ def _same_zones(A, B, states, count):
                     found = kb
                     break
         if found is None:
+            if any(k != "None" and _has_operator(json.loads(k)) for k in list(A) + list(B)):
+                return ALGEBRA
             return "zone keys %s vs %s" % (sorted(A), sorted(B))
         count("zone-key-by-value")
         pairs.append((ka, found))
         del restB[found]
     if restB:
+        if any(k != "None" and _has_operator(json.loads(k)) for k in list(A) + list(B)):
+            return ALGEBRA
         return "zone keys %s vs %s" % (sorted(A), sorted(B))
     for ka, kb in pairs:
         if [x[0] for x in A[ka]] != [x[0] for x in B[kb]]:
@@ -107,10 +136,16 @@ def compare_run(drv, prog, noal, mt, r, count):
         w = _same_entries(norm(tr["entries"]), tm["entries"], states, count)
         if w is None and tr["lastw"] != tm["lastw"]:
             w = "lastw %d vs %d" % (tr["lastw"], tm["lastw"])
+        if w == ALGEBRA:
+            count(ALGEBRA + "(comparison stops there)")
+            return None
         if w is not None:
             return ("diff", "after statement %d: %s" % (i, w), tr, tm)
     mz = {("None" if k is None else repr_canon(k)): v for k, v in mod["zones"]}
     w = _same_zones(norm(real["zones"]), mz, states, count)
+    if w == ALGEBRA:
+        count(ALGEBRA + "(comparison stops there)")
+        return None
     if w is not None:
         return ("diff", "final " + w, real["zones"], mz)
     return None
